@@ -265,6 +265,68 @@ fn run_optics<F: Float>(
     }
 }
 
+/// Tolerance equal to a *computed* (rounded) inter-point distance, e.g. sqrt(2) under L2 or a sum of
+/// inexact terms under L1: which side of the radius such a pair lies on is decided by rounding, so no
+/// oracle reading is demanded -- only that the result does not depend on the neighbour index.
+fn rounded_tie_index_agreement<F: Float>(c: &mut Case, f32_run: bool) -> Outcome {
+    let mp = *gen::pick(&mut c.rng, &[2usize, 2, 3, 3, 4]);
+    let p = c.rng.gen_range(2..=3);
+    let n = c.rng.gen_range(4..=c.tier.pick(30, 70));
+    let lattice = c.rng.gen_bool(0.7);
+    let x64 = if lattice {
+        let side = c.rng.gen_range(3..6) as i64;
+        Array2::from_shape_fn((n, p), |_| c.rng.gen_range(0..side) as f64)
+    } else {
+        // tenths: sums and squares of differences are inexact in binary floating point
+        Array2::from_shape_fn((n, p), |_| c.rng.gen_range(0..12) as f64 / 10.0)
+    };
+    let x: Array2<F> = x64.mapv(|v| F::cast(v));
+    let m = if lattice { Metric::L2 } else { METRICS[c.rng.gen_range(0..3)] };
+    let (i, j) = (c.rng.gen_range(0..n), c.rng.gen_range(0..n));
+    let eps = own_dist(m, x.row(i), x.row(j));
+    if !(eps > F::zero()) {
+        return inconclusive("picked a zero distance");
+    }
+    c.note("n", json!(n));
+    c.note("features", json!(p));
+    c.note("metric", json!(format!("{m:?}")));
+    c.note("min_points", json!(mp));
+    c.note("tolerance", json!(f64_of(eps)));
+    c.note("float", json!(if f32_run { "f32" } else { "f64" }));
+    c.evals = 6;
+    let db: Vec<_> = [Ix::Linear, Ix::Kd, Ix::Ball].iter().map(|ix| run_dbscan(&x, m, *ix, mp, eps)).collect();
+    let op: Vec<_> = [Ix::Linear, Ix::Kd, Ix::Ball].iter().map(|ix| run_optics(x.view(), m, *ix, mp, Some(eps))).collect();
+    for r in db.iter() {
+        if let Err(e) = r {
+            bail!("C08/dbscan/panic-or-error", {"why": e, "data": data_json(&x), "tolerance": f64_of(eps)});
+        }
+    }
+    for r in op.iter() {
+        if let Err(e) = r {
+            bail!("C08/optics/panic-or-error", {"why": e, "data": data_json(&x), "tolerance": f64_of(eps)});
+        }
+    }
+    // The linear scan and the k-d tree apply the same point-level predicate (reduced distance against
+    // the reduced tolerance), so they must agree exactly even on rounded ties. The ball tree prunes
+    // with rounded bounds, which can drop a point that sits within a rounding error of the radius
+    // (its range query is then not symmetric at such a tie): that is floating-point noise, not an
+    // index dependence the property could forbid, and is not judged here.
+    let names = ["linear", "kd-tree", "ball-tree"];
+    if db[2] != db[0] || op[2] != op[0] {
+        c.count("ball-tree-differs-on-a-rounded-tie (not judged)");
+    }
+    for k in 1..2 {
+        ensure!(db[k] == db[0], "C08/xindex/dbscan-rounded-tie-labels-differ",
+            {"data": data_json(&x), "metric": format!("{m:?}"), "min_points": mp, "tolerance": f64_of(eps),
+             "linear": format!("{:?}", db[0]), names[k]: format!("{:?}", db[k])});
+        ensure!(op[k] == op[0], "C08/xindex/optics-rounded-tie-analysis-differs",
+            {"data": data_json(&x), "metric": format!("{m:?}"), "min_points": mp, "tolerance": f64_of(eps),
+             "linear": format!("{:?}", op[0]), names[k]: format!("{:?}", op[k])});
+    }
+    let h = small_hash(x.iter().map(|v| f64_of(*v)));
+    held(n >= mp + 1, format!("rounded-tie n={n} p={p} m={m:?} mp={mp} h={h:x} f32={f32_run}"))
+}
+
 // ------------------------------------------------------------------------------------ DBSCAN oracle
 
 struct Truth {
@@ -1510,6 +1572,8 @@ pub fn run(ctx: &Ctx) {
     ctx.family("dbscan-on-radius-f32", t.pick(150, 1000), |c| random_on_radius::<f32>(c, Algo::Dbscan, true));
     ctx.family("optics-on-radius-f64", t.pick(300, 2000), |c| random_on_radius::<f64>(c, Algo::Optics, false));
     ctx.family("optics-on-radius-f32", t.pick(150, 1000), |c| random_on_radius::<f32>(c, Algo::Optics, true));
+    ctx.family("rounded-tie-index-agreement-f64", t.pick(600, 4000), |c| rounded_tie_index_agreement::<f64>(c, false));
+    ctx.family("rounded-tie-index-agreement-f32", t.pick(300, 2000), |c| rounded_tie_index_agreement::<f32>(c, true));
     ctx.family("degenerate-f64", t.pick(120, 600), |c| degenerate::<f64>(c, false));
     ctx.family("degenerate-f32", t.pick(120, 600), |c| degenerate::<f32>(c, true));
     ctx.family("layouts-forms-f64", t.pick(100, 600), |c| layouts_and_forms::<f64>(c));
